@@ -1,5 +1,6 @@
 # Configuration of ./check C20 (fields: see props.d/C06.py).
 PROP = {
+    "regen_files": ["GenMacro.v"],
     "num": 20,
     "runs": [
         # generated programs compiled with rustc against the rlib of the current tree
@@ -13,7 +14,7 @@ PROP = {
     "rule": "invocations written in the harness source by a prefix macro (arr!/box_arr! list forms with every element count 0..=64, u32/String/clone-logging/zero-sized elements, 0-2 trailing commas, const position; both repeat forms over {0,1,2,3,8,16,33,64,100,128,255,256,1024}) plus generated programs compiled with rustc against the rlib cargo built from the current tree (every element count 0..=64 plus 100,128,255,256 for arr!/box_arr!/const, repeat forms over the lattice plus 1025 and 2048 (thorough: 18 more lengths) with type-level lengths written as explicit UInt nests, const-item lengths as bare path and braced, box_arr! in a const); a program that does not compile is the observable 1. distinct = distinct CASE lines; non-trivial = count > 0 and the invocation compiles",
     "nontrivial": lambda case, obs: case.split()[1] != "0" and obs.split()[0] == "0",
     "trusted_extra": [
-        "C20 (strength PARTIAL): proved is the meaning of the transcribed macro arms (coq/theories/MacroDecls.v, hand-transcribed from src/arr.rs until the translator emits GenMacro.v) under the evaluation rules stated in Macros.v; trusted and sampled by the correspondence only: macro_rules! fragment matching and hygiene, Rust's left-to-right evaluation order and [x; n] / vec![x; n] semantics, typenum's Const<N> table (per length, hence the dense sampling of element counts), rustc's const evaluator",
+        "C20 (strength PARTIAL): proved is the meaning of the macro arms as stated in coq/theories/MacroDecls.v, which are proved equal to the arms tools/ga2coq regenerates from src/arr.rs on every run (coq/gen/GenMacro.v, coq/theories/MacroTie.v; also the const-ness of the crate functions the arms call) under the evaluation rules stated in Macros.v; trusted and sampled by the correspondence only: macro_rules! fragment matching and hygiene, Rust's left-to-right evaluation order and [x; n] / vec![x; n] semantics, typenum's Const<N> table (per length, hence the dense sampling of element counts), rustc's const evaluator",
     ],
     "manifest": {
         "design_ref": "DESIGN.md section 7, C20",
